@@ -176,6 +176,20 @@ def run(pid, tier, replay_file=None):
                                           for s, x in ob["dobs"]) + ">>"
                     add_event(si, vi, '[id |-> @ID@, p |-> "C05", doc |-> %s, v |-> %s, kind |-> "ok", out |-> %s, dobs |-> %s]'
                               % (doc_tla(), tlajson_to_tla(tagged_values[vi]), _out(o), dl))
+                # a required property given a default in place after the element was used
+                lo = ob["later_default_calls"][vi] if ob.get("later_default_calls") else None
+                if lo is not None and isinstance(pyvals[vi], dict):
+                    try:
+                        d2t = codec.json_to_tla_schema(ob["later_default_doc"])
+                        add_event(si, ("later", vi), '[id |-> @ID@, p |-> "C05w", doc |-> %s, v |-> %s, kind |-> %s]'
+                                  % (d2t, tlajson_to_tla(tagged_values[vi]), codec.tla_str(lo["kind"])))
+                        if lo["kind"] == "ok":
+                            dl = "<<" + ", ".join("<<%s, %s>>" % (codec.tla_str(s2), obs_to_tla(x2))
+                                                  for s2, x2 in ob["later_default_dobs"]) + ">>"
+                            add_event(si, ("later", vi), '[id |-> @ID@, p |-> "C05", doc |-> %s, v |-> %s, kind |-> "ok", out |-> %s, dobs |-> %s]'
+                                      % (d2t, tlajson_to_tla(tagged_values[vi]), _out(lo), dl))
+                    except ValueError:
+                        pass
                 # the same document dictionary parsed a second time
                 ao = ob["again_calls"][vi] if ob.get("again_calls") else None
                 if ao is not None and st.get("dobs") and ao["kind"] == "ok" and not (
@@ -315,7 +329,13 @@ def run(pid, tier, replay_file=None):
                               f"{json.dumps(pyvals[tag])[:80]}", dict(schema=d, value_index=tag))
                 continue
             st, ob = states[si], observations[si]
-            if isinstance(tag, tuple) and tag[0] == "reconf":
+            if isinstance(tag, tuple) and tag[0] == "later":
+                o = ob["later_default_calls"][tag[1]]
+                rep.violation((pid + "-default-given-later", _kwsig(st["doc"])),
+                              f"observation rejected by R_{pid}: after use, the required property {ob['later_default_src']!r} of "
+                              f"{json.dumps(codec.schema_to_json(st['doc']))[:160]} was given a default in place; from "
+                              f"{json.dumps(pyvals[tag[1]])[:80]} the element gives {o['kind']} {_short(o)}", _payload(st, tag[1], o))
+            elif isinstance(tag, tuple) and tag[0] == "reconf":
                 o = ob["reconf_calls"][tag[1]]
                 rep.violation((pid + "-after-reassignment", _kwsig(st["doc"])),
                               f"observation rejected by R_{pid}: after use, additionalProperties = Number() was assigned to the element of "
